@@ -265,6 +265,11 @@ func init() {
 				// the distributed plan has ~3x the threads: keep its 2-step window
 				s.DQuick = 1
 				runSched(c, &s, "C14", []string{"ctx-cancel"}, cancelOracle)
+				// and over remote storages that fail every callback once cancelled
+				sx := s
+				sx.Name = s.Name + "/storectx"
+				sx.StoreCtx = true
+				runSched(c, &sx, "C14", []string{"ctx-cancel"}, cancelOracle)
 				continue
 			}
 			s.DQuick, s.DThorough = 1, 2
